@@ -2,7 +2,7 @@
    mutating operation so that closure chains stay short.  Here: the tabulation is invisible to everything the runner
    observes and to every read the model's operations perform, provided columns are below width — so the runner's
    verdicts are verdicts about the un-tabulated model the theorems speak of. *)
-From Coq Require Import ZArith List Lia Bool ZifyBool Arith.
+From Coq Require Import ZArith List Lia Bool ZifyBool Arith Uint63.
 From Sketchnu Require Import Machine BitLemmas Consts Ngram HH HHProofs.
 Import ListNotations.
 Open Scope Z_scope.
@@ -262,3 +262,27 @@ Proof.
 Qed.
 
 End HHRunnerProofs.
+
+(* the bucket function the runner uses is the table of columns observed on the implementation (first entry of a key
+   wins, column 0 for anything unobserved): it is below width as soon as width > 0 and every observed column is — the
+   hypothesis bucket_lt of the section above, for the instance the runner actually executes *)
+Lemma bucket_of_lt w m : cols_ok w m = true -> forall r k, (bucket_of m r k < w)%nat.
+Proof.
+  unfold cols_ok. intros H r k. apply andb_prop in H. destruct H as [Hw Hm]. apply Nat.ltb_lt in Hw.
+  unfold bucket_of. induction m as [|[k' cols] m IH]; cbn [map fst snd]; [assumption|].
+  cbn [forallb snd] in Hm. apply andb_prop in Hm. destruct Hm as [Hc Hm].
+  destruct (keqb (ki k') k).
+  - destruct (nth_in_or_default r (map ni cols) O) as [Hin | ->]; [|assumption].
+    apply in_map_iff in Hin. destruct Hin as (c & <- & Hin).
+    rewrite forallb_forall in Hc. apply Nat.ltb_lt, Hc, Hin.
+  - apply IH, Hm.
+Qed.
+
+(* the strict case check the harness evaluates implies the hypothesis for that case's bucket function *)
+Lemma check_case_strict_bucket (w d L : int) (phi : PrimFloat.float) bm prog :
+  check_case_strict (mkcase w d L phi bm prog) = true ->
+  (forall r k, (bucket_of bm r k < ni w)%nat) /\ check_case (mkcase w d L phi bm prog) = true.
+Proof.
+  unfold check_case_strict, mkcase. intros H. apply andb_prop in H. destruct H as [Hc Hr].
+  split; [apply bucket_of_lt, Hc|exact Hr].
+Qed.
